@@ -158,6 +158,11 @@ def _explore(ctx, max_len):
             if n_seq % 4 == 1:
                 langs["de"] = []                    # a language without captions between two that have some: it stays empty
             langs["fr"] = [W.caption(*c) for c in other]
+            shared_objects = n_seq % 6 == 4 and len(seq) >= 2
+            if shared_objects:
+                # one track registered under two language codes: the SAME caption objects in both lists - what the merge makes of
+                # the first language may not change what the second one gets
+                langs["fr"] = list(langs["en-US"])
             case = {"timespans": [SPANS[s] for s in spans]}
             try:
                 got = W.run(langs)
@@ -169,7 +174,7 @@ def _explore(ctx, max_len):
                 continue
             except AnalysisError as e:
                 raise AnalysisError(f"merge_concurrent_captions cannot be folded: {e}")
-            want = {"en-US": _expected(seq), "fr": _expected(other)}
+            want = {"en-US": _expected(seq), "fr": _expected(seq if shared_objects else other)}
             if "de" in langs:
                 want["de"] = []
             if set(first) != set(want) or first.get("fr") != want["fr"] or first.get("de", []) != want.get("de", []):
